@@ -128,3 +128,11 @@ claim("C09", ENGINE_A + "; A-DEF default-assignment oracle + go/types on the who
       "decode, under the guard 'raw key absent or null' for the exact raw name, before any constraint on that field is evaluated; that defaulted fields are exempt from the presence check and others get "
       "no assignment; and that the literal has the Go type of the field (the file type-checks). Two known findings (nullable+default; default-key selectors).",
       "as C01", "DESIGN.md §2 C09")
+
+claim("C08", ENGINE_A + "; enum oracle (carrier, value table, A-DYN dynamic-type agreement, constants) + go/types",
+      "Decides, for enum lists of every kind (typed and untyped strings, integers, numbers, booleans, null, mixed, and a concrete list of look-alike values of different JSON types) used inline, behind "
+      "a reference and as array items, with and without --min-sized-ints, that the carrier type is the oracle's (struct-wrapped exactly for mixed/null), that the value table lists every value, that the "
+      "dynamic Go type of every table element equals the static type of the comparand given to reflect.DeepEqual (or is a type encoding/json produces, for wrapped enums), that string enums expose one "
+      "typed constant per value, that wrapped enums marshal the bare value, that both unmarshalers agree and that the file type-checks. Two known findings (sized-int enums reject everything; untyped "
+      "enum behind a reference is not enforced). reflect.DeepEqual on float representations is not decided.",
+      "as C01", "DESIGN.md §2 C08")
